@@ -56,7 +56,9 @@ ApplyOps(w, ops, n) == IF n = 0 THEN w ELSE ApplyOp(ApplyOps(w, ops, n - 1), ops
 
 -----------------------------------------------------------------------------
 (* An observation o of a recovered store:                                  *)
-(*  open, panic : BOOLEAN                                                  *)
+(*  open, panic : BOOLEAN; again : the store came up a second time, after  *)
+(*                a few more appends and a clean stop, with every frame    *)
+(*                still there                                              *)
 (*  stream   : seq of [id, topic, ctx, ttl, meta, hash]  (primary, raw)    *)
 (*  idxT     : seq of <<ctx, topic, id>>     idxC : seq of <<ctx, id>>     *)
 (*  contexts : seq of ids (the registry)                                   *)
@@ -107,6 +109,7 @@ ContentPresent(o) ==
 ImageVerdict(ops, nack, inflight, kind, o) ==
   IF ~o.open THEN {<<{"C04"}, "the store does not reopen">>}
   ELSE IF o.panic THEN {<<{"C04"}, "the reopened store panics when read">>}
+  ELSE IF ~o.again THEN {<<{"C04"}, "the recovered store does not survive one more restart">>}
   ELSE LET wa == ApplyOps(W0, ops, nack)
            wb == IF inflight THEN ApplyOps(W0, ops, nack + 1) ELSE wa
        IN (IF PartitionsAgree(o) THEN {} ELSE {<<{"C04"}, "a write is partly present: the three partitions disagree">>})
